@@ -40,6 +40,14 @@ func c14HeaderGet(e ast.Expr) (string, bool) {
 		return "", false
 	}
 	sel, ok := call.Fun.(*ast.SelectorExpr)
+	if ok && sel.Sel.Name == "ContentEncoding" {
+		// compress.ContentEncoding(resp.Header): the Content-Encoding field lines as one value
+		// (fixes/C14-7) - the same fact: this expression reads the response's Content-Encoding
+		if hs, ok := call.Args[0].(*ast.SelectorExpr); ok && hs.Sel.Name == "Header" {
+			return "Content-Encoding", true
+		}
+		return "", false
+	}
 	if !ok || sel.Sel.Name != "Get" {
 		return "", false
 	}
@@ -201,6 +209,8 @@ type c14Fn struct {
 	dir    string
 	fd     *ast.FuncDecl
 	locals map[string]ast.Expr // x := e / var x = e, defined once and never reassigned
+	depth  int                 // > 0 while reading an inlined helper condition (no further inlining)
+	inl    map[*ast.CallExpr]ast.Expr // helper calls already inlined (their locals are merged once)
 }
 
 func c14NewFn(c *ctx, dir, recv, name string) (*c14Fn, error) {
@@ -208,6 +218,11 @@ func c14NewFn(c *ctx, dir, recv, name string) (*c14Fn, error) {
 	if err != nil {
 		return nil, errAbstain{err.Error()}
 	}
+	return c14FnOf(c, dir, fd), nil
+}
+
+// c14FnOf: a function with its single-assignment locals.
+func c14FnOf(c *ctx, dir string, fd *ast.FuncDecl) *c14Fn {
 	f := &c14Fn{c: c, dir: dir, fd: fd, locals: map[string]ast.Expr{}}
 	count := map[string]int{}
 	ast.Inspect(fd.Body, func(n ast.Node) bool {
@@ -246,7 +261,81 @@ func c14NewFn(c *ctx, dir, recv, name string) (*c14Fn, error) {
 			delete(f.locals, k)
 		}
 	}
-	return f, nil
+	return f
+}
+
+// inlineBool: e is a call of an unexported function or method of the same package whose body is
+// `[x := …]* return <expr>` (a condition extracted into a helper): the returned expression, to be
+// read in place of the call - by meaning: the classifiers look at selectors, header keys, literals
+// and never at receiver / parameter names, so no substitution is needed. The helper's
+// single-assignment locals become resolvable (unless a name is already taken here). One level deep.
+func (f *c14Fn) inlineBool(e ast.Expr) (ast.Expr, bool) {
+	if f.depth > 0 {
+		return nil, false
+	}
+	call, ok := f.resolve(e).(*ast.CallExpr)
+	if !ok {
+		return nil, false
+	}
+	if r, done := f.inl[call]; done {
+		return r, r != nil
+	}
+	if f.inl == nil {
+		f.inl = map[*ast.CallExpr]ast.Expr{}
+	}
+	f.inl[call] = nil // until proved inlinable
+	var name, recv string
+	switch fn := call.Fun.(type) {
+	case *ast.Ident:
+		name = fn.Name
+	case *ast.SelectorExpr:
+		if _, isIdent := fn.X.(*ast.Ident); !isIdent {
+			if _, isSel := fn.X.(*ast.SelectorExpr); !isSel {
+				return nil, false
+			}
+		}
+		name, recv = fn.Sel.Name, "*"
+	default:
+		return nil, false
+	}
+	if name == "" || !(name[0] >= 'a' && name[0] <= 'z') {
+		return nil, false
+	}
+	h := f.helper(name, recv)
+	if h == nil || h.fd.Type.Results == nil || len(h.fd.Type.Results.List) != 1 {
+		return nil, false
+	}
+	var ret ast.Expr
+	for i, st := range h.fd.Body.List {
+		switch x := st.(type) {
+		case *ast.AssignStmt:
+			if x.Tok != token.DEFINE {
+				return nil, false
+			}
+		case *ast.DeclStmt:
+		case *ast.ReturnStmt:
+			if i != len(h.fd.Body.List)-1 || len(x.Results) != 1 {
+				return nil, false
+			}
+			ret = x.Results[0]
+		default:
+			return nil, false
+		}
+	}
+	if ret == nil {
+		return nil, false
+	}
+	for k, v := range h.locals {
+		if _, taken := f.locals[k]; taken {
+			return nil, false
+		}
+		_ = v
+	}
+	for k, v := range h.locals {
+		f.locals[k] = v
+	}
+	f.inl[call] = ret
+	return ret, true
 }
 
 // resolve follows a local alias to the expression it was defined as (and strips parentheses).
@@ -278,6 +367,12 @@ func (f *c14Fn) conjuncts(e ast.Expr) []ast.Expr {
 	r := f.resolve(e)
 	if b, ok := r.(*ast.BinaryExpr); ok && b.Op == token.LAND {
 		return append(f.conjuncts(b.X), f.conjuncts(b.Y)...)
+	}
+	if body, ok := f.inlineBool(e); ok { // a condition extracted into a same-package helper
+		f.depth++
+		out := f.conjuncts(body)
+		f.depth--
+		return out
 	}
 	return []ast.Expr{e}
 }
@@ -537,7 +632,7 @@ func (f *c14Fn) helper(name, recv string) *c14Fn {
 	if n != 1 {
 		return nil
 	}
-	return &c14Fn{c: f.c, dir: f.dir, fd: hit, locals: map[string]ast.Expr{}}
+	return c14FnOf(f.c, f.dir, hit)
 }
 
 type c14Clause struct {
